@@ -232,3 +232,114 @@ func VP_C02_kinds() {
 	}
 	vp.Cover("end")
 }
+
+// four levels of anonymous embedding, several fields at the deepest level and
+// one at every level in between (field index paths of length 2..5).
+type vpE4 struct {
+	L1 int16  `nbt:"l1"`
+	L2 int32  `nbt:"l2"`
+	L3 string `nbt:"l3"`
+}
+type vpE3 struct {
+	vpE4
+	M3 int8 `nbt:"m3"`
+}
+type vpE2 struct {
+	vpE3
+	M2 int64 `nbt:"m2"`
+}
+type vpE1 struct {
+	vpE2
+	M1 int16 `nbt:"m1"`
+}
+type vpE0 struct {
+	vpE1
+	Top int32 `nbt:"top"`
+}
+
+type vpOm struct {
+	A int32  `nbt:"a,omitempty"`
+	B string `nbt:"b,omitempty"`
+}
+
+// shapes: deep embedding; maps with several entries whose values hold
+// references (carriers, slices, maps, structs with omitted fields) - every
+// entry must come back with its own value.
+func VP_C02_shapes() {
+	enc := func(v any) []byte {
+		var w vpBuf
+		e := NewEncoder(&w)
+		e.NetworkFormat(true)
+		vp.Assert(e.Encode(v, "") == nil, "Encode err==nil")
+		return w.b
+	}
+	dec := func(b []byte, v any) {
+		r := &vpByteReader{b: append(append([]byte{}, b...), 0x42)}
+		d := NewDecoder(r)
+		d.NetworkFormat(true)
+		_, err := d.Decode(v)
+		vp.Assert(err == nil, "decoding the encoding succeeds")
+		vp.Assert(r.pos == len(b), "decoding consumes exactly the encoding")
+	}
+	switch vp.Choice(6) {
+	case 0:
+		var v vpE0
+		v.L1, v.L2, v.L3 = vp.Int16(), vp.Int32(), string(vp.Bytes(1))
+		v.M3, v.M2, v.M1, v.Top = vp.Int8(), vp.Int64(), vp.Int16(), vp.Int32()
+		var g vpE0
+		if vp.Bool() {
+			dec(enc(v), &g)
+		} else {
+			dec(enc(&v), &g)
+		}
+		vp.Assert(g == v, "round trip deeply embedded fields")
+	case 1:
+		v := map[string]RawMessage{
+			"a": {Type: TagShort, Data: vp.Bytes(2)},
+			"b": {Type: TagByte, Data: vp.Bytes(1)},
+			"c": {Type: TagInt, Data: vp.Bytes(4)},
+		}
+		var g map[string]RawMessage
+		dec(enc(v), &g)
+		vp.Assert(len(g) == 3, "round trip map of carriers")
+		for k, x := range v {
+			y := g[k]
+			vp.Assert(y.Type == x.Type && string(y.Data) == string(x.Data), "round trip map of carriers")
+		}
+	case 2:
+		v := map[string][]int8{"a": {vp.Int8(), vp.Int8()}, "b": {vp.Int8(), vp.Int8()}, "c": {vp.Int8()}}
+		var g map[string][]int8
+		dec(enc(v), &g)
+		vp.Assert(len(g) == 3, "round trip map of slices")
+		for k, x := range v {
+			y := g[k]
+			vp.Assert(len(y) == len(x), "round trip map of slices")
+			for i := range x {
+				vp.Assert(y[i] == x[i], "round trip map of slices")
+			}
+		}
+	case 3:
+		v := map[string]map[string]int16{"a": {"x": vp.Int16()}, "b": {"y": vp.Int16()}}
+		var g map[string]map[string]int16
+		dec(enc(v), &g)
+		vp.Assert(len(g) == 2 && len(g["a"]) == 1 && len(g["b"]) == 1, "round trip map of maps")
+		vp.Assert(g["a"]["x"] == v["a"]["x"] && g["b"]["y"] == v["b"]["y"], "round trip map of maps")
+	case 4:
+		v := map[string]vpOm{"a": {A: vp.Int32(), B: string(vp.Bytes(1))}, "b": {}, "c": {A: vp.Int32()}}
+		var g map[string]vpOm
+		dec(enc(v), &g)
+		vp.Assert(len(g) == 3, "round trip map of structs with omitted fields")
+		for k, x := range v {
+			vp.Assert(g[k] == x, "round trip map of structs with omitted fields")
+		}
+	default:
+		v := []vpOm{{A: vp.Int32(), B: string(vp.Bytes(1))}, {}, {B: string(vp.Bytes(1))}}
+		var g []vpOm
+		dec(enc(v), &g)
+		vp.Assert(len(g) == 3, "round trip list of structs with omitted fields")
+		for i := range v {
+			vp.Assert(g[i] == v[i], "round trip list of structs with omitted fields")
+		}
+	}
+	vp.Cover("end")
+}
